@@ -120,9 +120,28 @@ func (c *probeCheck) RunCase(w *core.Worker, idx int, seed uint64, res *core.Cas
 	}
 	c.h.pool = poolFor(poolName)
 	c.h.noOrphan = choicePool
+	// C09, every 7th case: the production gNMI target and a gNMI device on loopback ("empty gNMI set")
+	c.h.gnmiWire = ""
+	if c.id == "C09" && idx%7 == 6 {
+		c.h.gnmiWire = []string{"proto", "json", "json_ietf"}[(idx/7)%3]
+		poolName += " gnmi-wire=" + c.h.gnmiWire
+	}
+	// every 8th case: intents with hundreds of entries
+	c.h.bulk = 0
+	if idx%8 == 3 {
+		c.h.bulk = 150
+		poolName += " bulk"
+		res.Count("bulk_cases", 1)
+	}
 	run := c.h.start(rng, res, true, c.id == "C09")
 	run.ds.Dev.CaptureViews = false
 	defer run.close()
+	if c.h.gnmiWire != "" {
+		if run.gdev == nil {
+			return
+		}
+		res.Count("gnmi_wire_cases:"+c.h.gnmiWire, 1)
+	}
 	res.Tracef("pool=%s", poolName)
 	if c.id == "C03" {
 		// two intents the generator never touches: m2's leaf is valid only while m1 says a=on; a transaction that
@@ -240,11 +259,16 @@ type stateSnap struct {
 	devSets  int
 	modifies int
 	dev      map[string]string
+	gsets    int
 }
 
 func (r *histRun) snap() stateSnap {
 	im, cm := r.dumps()
-	return stateSnap{intended: im, config: cm, devSets: r.ds.Dev.NumSets(), modifies: r.fc.Count("Modify"), dev: r.ds.Dev.Snapshot()}
+	sn := stateSnap{intended: im, config: cm, devSets: r.ds.Dev.NumSets(), modifies: r.fc.Count("Modify"), dev: r.devSnapshot()}
+	if r.gdev != nil {
+		sn.gsets = r.gdev.NumSets()
+	}
+	return sn
 }
 
 func (r *histRun) expectUnchanged(prop, what string, before stateSnap) {
@@ -547,6 +571,17 @@ func (c *probeCheck) resubmitProbe(run *histRun, rng *core.Rng) bool {
 				}
 			}
 			run.res.Count("empty_renderings_checked", 2+8)
+		}
+	}
+	if run.gdev != nil {
+		for _, st := range run.gdev.SetsSince(before.gsets) {
+			run.res.Count("gnmi_set_requests_on_resubmission", 1)
+			if len(st.Req.GetDelete())+len(st.Req.GetUpdate())+len(st.Req.GetReplace()) > 0 {
+				run.res.Violate("C09/gnmi-set-not-empty", "%s: the gNMI device received %s\n  model: %s", what, fixture.DescribeSet(st.Req), run.m)
+			}
+		}
+		if d := fixture.MapDiff(before.dev, run.devSnapshot()); d != "" {
+			run.res.Violate("C09/gnmi-device-changed", "%s: %s", what, d)
 		}
 	}
 	var cerr error
